@@ -370,13 +370,116 @@ var c13repeatOpt = gen.ProgOpt{Fuel: 4, Partial: true, Sugar: false, Maybe: true
 var c13repeat = Register(&Prop[ProgCase]{ID: "C13", Name: "repeat", Gen: genProgCase(c13repeatOpt, nil), Check: checkRepeat})
 
 func TestC13(t *testing.T) {
-	R.Rule = "histories of 3-25 operations over a pool of <= 4 expressions (results with multi-entry maps, objects, set operations, string(x), print), three engine instances (VM, closure, VM) and deliberately reused environment objects (one raw *types.Env, two raw *val.Env with different contents, host structs and maps): compile(expr, type object) on engine i; invoke(callable, value object); one-shot Eval; Debug; render an earlier result 16 times; oracle after every step: outcome = the reference evaluator on (expression, environment contents) alone, captured standard output = exactly the print lines, host values deep-equal to an identically built twin, renderings never vary, an environment object used once is accepted again; plus repeated fresh evaluation of single programs (6 x 2 back ends) with identical result text and output; non-trivial = an environment object reused after another operation and a result with a multi-entry map or >= 2 results"
+	R.Rule = "histories of 3-25 operations over a pool of <= 4 expressions (results with multi-entry maps, objects, set operations, string(x), print), three engine instances (VM, closure, VM) and deliberately reused environment objects (one raw *types.Env, two raw *val.Env with different contents, host structs and maps): compile(expr, type object) on engine i; invoke(callable, value object); one-shot Eval; Debug; render an earlier result 16 times; oracle after every step: outcome = the reference evaluator on (expression, environment contents) alone, captured standard output = exactly the print lines, host values deep-equal to an identically built twin, renderings never vary, an environment object used once is accepted again; plus repeated fresh evaluation of single programs (6 x 2 back ends) with identical result text and output; plus one source text (13 templates over overloaded / polymorphic built-ins) compiled 2-5 times on ONE engine against environments that give its variables different types, each step compared with a fresh engine; non-trivial = an environment object reused after another operation and a result with a multi-entry map or >= 2 results"
 	R.Assume = []string{"ref.Eval and the characterised rendering of print"}
 	reportKnown(t, "C13")
 	runRegress(t, "C13")
 	c13.Run(t, budget(1500, 96000))
 	c13repeat.Run(t, budget(1500, 96000))
+	c13recompile.Run(t, budget(1500, 96000))
 }
 
 var _ = types.Num
 var _ = ref.BuiltIns
+
+// ---- the same source text compiled on ONE engine against environments of different types
+
+type RecompileCase struct {
+	Template int   `json:"template"`
+	Types    []int `json:"types"` // per step: which type the variables get
+	Closure  bool  `json:"closure,omitempty"`
+}
+
+// templates that are well-typed for several types of x (and y: same type as x)
+var recompileTemplates = []string{
+	"len(x)", "x == y", "x != y", "string(x)", "if(x == y, len(x), 0 - 1)", "[x, y]", "[x: 1]", "len(x) + len(y)", "get([x], 0, y)",
+	"if(len(x) > 1, x, y)", "{a: x, b: len(x)}", "string([x]) + string(y)", "print(x)",
+}
+
+var recompileTypes = []*m.Type{m.Str, m.List(m.Num), m.Map(m.Str, m.Num), m.List(m.Str), m.Num, m.Bool, m.List(m.List(m.Num)), m.Map(m.Num, m.Str)}
+
+func recompileValue(t *m.Type, variant int) *m.Val {
+	switch t.K {
+	case m.TStr:
+		return m.VStr([]string{"ab", "é"}[variant%2])
+	case m.TNum:
+		return m.VNum([]float64{2, 7}[variant%2])
+	case m.TBool:
+		return m.VBool(variant%2 == 0)
+	case m.TList:
+		return &m.Val{T: t, L: []*m.Val{recompileValue(t.El(), variant), recompileValue(t.El(), variant+1)}}
+	case m.TMap:
+		v := &m.Val{T: t}
+		v.MapPut(recompileValue(t.Key(), variant), recompileValue(t.Val(), variant))
+		return v
+	}
+	panic("recompileValue")
+}
+
+func genRecompileCase(t *rapid.T) *RecompileCase {
+	c := &RecompileCase{Template: rapid.IntRange(0, len(recompileTemplates)-1).Draw(t, "template"), Closure: rapid.Bool().Draw(t, "closure")}
+	n := rapid.IntRange(2, 5).Draw(t, "steps")
+	for i := 0; i < n; i++ {
+		c.Types = append(c.Types, rapid.IntRange(0, len(recompileTypes)-1).Draw(t, "type"))
+	}
+	return c
+}
+
+func checkRecompile(c *RecompileCase) *Outcome {
+	if c.Template < 0 || c.Template >= len(recompileTemplates) {
+		return skip("bad-template")
+	}
+	src := recompileTemplates[c.Template]
+	shared := yae.NewExpr()
+	if c.Closure {
+		shared.UseClosureCompiler()
+	}
+	flips := 0
+	prevAccepted := -1
+	for step, ti := range c.Types {
+		ty := recompileTypes[ti%len(recompileTypes)]
+		env := map[string]*m.Type{"x": ty, "y": ty}
+		vals := map[string]*m.Val{"x": recompileValue(ty, 0), "y": recompileValue(ty, 1)}
+		// the outcome of this step alone: the reference, cross-checked with a fresh engine
+		pc := &ProgCase{E: nil, Env: env, Vals: vals}
+		_ = pc
+		fresh := yae.NewExpr()
+		if c.Closure {
+			fresh.UseClosureCompiler()
+		}
+		en := run.NewEngine(run.VMSwitch, nil)
+		runOn := func(e *yae.Expr) (string, string) {
+			var v *val.Val
+			var err error
+			var out string
+			p := run.Guard(func() {
+				var cl yae.Callable
+				cl, err = e.Compile(src, run.TypeEnv(env))
+				if err == nil {
+					out = run.CaptureStdout(func() { v, err = cl(en.ValEnv(vals)) })
+				}
+			})
+			switch {
+			case p != nil:
+				return "panic: " + p.Text, ""
+			case err != nil:
+				return "error", err.Error()
+			}
+			return "value " + v.String() + " | stdout " + out, ""
+		}
+		want, _ := runOn(fresh)
+		got, gotErr := runOn(shared)
+		if got != want {
+			return bad("step %d: compiling %q against x,y : %s on an engine that compiled the same text before gives [%s %s]; a fresh engine gives [%s]\n type sequence: %v", step, src, ty, got, gotErr, want, c.Types)
+		}
+		if strings.HasPrefix(want, "value") {
+			if prevAccepted >= 0 && prevAccepted != ti {
+				flips++
+			}
+			prevAccepted = ti
+		}
+	}
+	return ok(flips > 0, "recompile-same-text-other-types")
+}
+
+var c13recompile = Register(&Prop[RecompileCase]{ID: "C13", Name: "recompile-other-env", Gen: genRecompileCase, Check: checkRecompile})
